@@ -513,6 +513,8 @@ impl Ir {
             // Run-once constant cone (see `try_dispatch_const`).  NotReady
             // leaves the flag unset — the main dispatch below falls back to
             // Cranelift, which still evaluates the const statements.
+            #[cfg(veryl_verif)]
+            crate::verif::set_kind(crate::verif::KIND_COMB);
             if !self.const_cone_done.load(Ordering::Relaxed)
                 && whole.try_dispatch_const(ff_ptr, comb_ptr, log_ptr) == DispatchOutcome::Done
             {
